@@ -199,60 +199,76 @@ static int a5_fmt_stop(int slen, int off)
 	}
 	return A5_BUF;
 }
-/* buf[d + i] == text[off + i] for every i < k */
+/* the character i places behind the cursor offset off: constant cell i, the offset selected among its possible
+ * values 0 .. 66 (a read g_txt[off + i] would be a symbolic-index read of an array-theory object) */
+static char a5_txt(int off, int i)
+{
+	for (int o = 0; o <= A5_BUF + 2; o++)
+		if (o == off)
+			return g_txt[o + i];
+	return 0;
+}
+/* buf[d + i] == text[off + i] for every i < k: cell by cell */
 static int a5_copied(const char *buf, int d, int off, int k)
 {
-	for (int p = 0; p < A5_WIN; p++) {
-		if (p < off || p >= off + k)
-			continue;
-		if (d + (p - off) < A5_BUF && buf[d + (p - off)] != g_txt[p])
+	for (int i = 0; i < A5_BUF - 1; i++)
+		if (i < k && d + i < A5_BUF && buf[d + i] != a5_txt(off, i))
 			return 0;
-	}
 	return 1;
 }
 #define PF_IN0 OLD(c->in)
-/* (each textual call of a specification function is evaluated again: one predicate per verdict) */
-/* accepted exactly when a non-empty format, its '%' and its terminator fit in the buffer and a '{' follows it */
-static int a5_pf_legal(const char *in0, int buflen)
+/* (each textual call of a specification function is evaluated again: one predicate for the whole postcondition) */
+/* Recording for format_region, which uses the contracts below as replacements (g_rec = 1 there, 0 where a contract
+ * is proved: the real functions do not write these ghosts): the lengths found and the index looked up are named by
+ * ghosts, so that the caller's postcondition need not compute them again.  A definition of fresh ghosts constrains
+ * nothing of the program. */
+int g_rec; int g_pf_k, g_pn_k, g_fa_idx; unsigned g_fa_calls;
+/* k = length of the format; returns 0, or the number of the clause that does not hold */
+static int a5_pf_post(int ret, const char *in0, const char *in1, const char *fmt, int buflen, int j, int k)
 {
 	int off = (int) A5_OFF(in0);
-	int k = a5_fmt_stop(A5_SLEN, off);
-	return k >= 1 && k < A5_BUF && a5_at(off + k) == '{' && k + 2 <= buflen;
-}
-/* accepted: the buffer holds '%', the text up to the brace, NUL; the cursor stands on the brace */
-static int a5_pf_accepted(const char *in0, const char *in1, const char *fmt, int j)
-{
-	int off = (int) A5_OFF(in0);
-	int k = a5_fmt_stop(A5_SLEN, off);
-	if (!(__CPROVER_same_object(in1, in0) && A5_OFF(in1) == A5_OFF(in0) + (unsigned long) k))
-		return 0;
-	if (!(fmt[0] == '%' && fmt[k + 1] == '\0'))
-		return 0;
-	if (!a5_copied(fmt, 1, off, k))
-		return 0;
-	/* the same for the arbitrary observer cell */
-	if (j >= 0 && j < k && !(fmt[1 + j] == a5_at(off + j) && fmt[1 + j] != '{' && fmt[1 + j] != '\0'))
-		return 0;
-	return 1;
-}
-/* refused: the cursor is still inside the string, not behind the first '{' or the terminator */
-static int a5_pf_refused(const char *in0, const char *in1)
-{
-	int k = a5_fmt_stop(A5_SLEN, (int) A5_OFF(in0));
-	return __CPROVER_same_object(in1, in0) && A5_OFF(in1) >= A5_OFF(in0) && A5_OFF(in1) <= A5_OFF(in0) + (unsigned long) k;
+	if (k != a5_fmt_stop(A5_SLEN, off))
+		return 1;
+	if (!(ret == 0 || ret == -1))
+		return 2;
+	/* accepted exactly when a non-empty format, its '%' and its terminator fit in the buffer and a '{' follows it */
+	int legal = k >= 1 && k < A5_BUF && a5_at(off + k) == '{' && k + 2 <= buflen;
+	if ((ret == 0) != (legal != 0))
+		return 3;
+	if (!__CPROVER_same_object(in1, in0))
+		return 4;
+	if (ret == 0) {
+		/* the buffer holds '%', the text up to the brace, NUL; the cursor stands on the brace */
+		if (A5_OFF(in1) != A5_OFF(in0) + (unsigned long) k)
+			return 5;
+		if (!(fmt[0] == '%' && fmt[k + 1] == '\0'))
+			return 6;
+		if (!a5_copied(fmt, 1, off, k))
+			return 7;
+		/* the same for the arbitrary observer cell */
+		if (j >= 0 && j < k && !(fmt[1 + j] == a5_at(off + j) && fmt[1 + j] != '{' && fmt[1 + j] != '\0'))
+			return 8;
+	} else {
+		/* refused: the cursor is still inside the string, not behind the first '{' or the terminator */
+		if (!(A5_OFF(in1) >= A5_OFF(in0) && A5_OFF(in1) <= A5_OFF(in0) + (unsigned long) k))
+			return 9;
+	}
+	return 0;
 }
 A5_SPEC_END
+#define PF_K (g_rec ? g_pf_k : a5_fmt_stop(A5_SLEN, (int) A5_OFF(PF_IN0)))
 int c_parse_printf_format(char *fmt, int buflen, struct cursor *c)
 __CPROVER_requires(__CPROVER_rw_ok(c, sizeof(*c)) && A5_STR_PRE(c->in) && DIAG_PRE)
 __CPROVER_requires(buflen >= 0 && buflen <= A5_BUF && (buflen == 0 || __CPROVER_w_ok(fmt, (size_t) buflen)))
-__CPROVER_assigns(c->in, DIAG_FRAME)
+__CPROVER_assigns(c->in, DIAG_FRAME, g_pf_k)
 __CPROVER_assigns(buflen > 0: __CPROVER_object_upto(fmt, (size_t) buflen))
-__CPROVER_ensures(RET == 0 || RET == -1)
-__CPROVER_ensures((RET == 0) == (a5_pf_legal(PF_IN0, buflen) ? 1 : 0))
-__CPROVER_ensures(IMPLIES(RET == 0, a5_pf_accepted(PF_IN0, c->in, fmt, g_j) && g_err == OLD(g_err) && g_diag == OLD(g_diag) && g_warn == OLD(g_warn)))
+__CPROVER_ensures(a5_pf_post(RET, PF_IN0, c->in, fmt, buflen, g_j, PF_K) == 0)
 /* (the cursor once more, in the form a caller's value set needs) */
-__CPROVER_ensures(IMPLIES(RET == 0, __CPROVER_pointer_equals(c->in, PF_IN0 + a5_fmt_stop(A5_SLEN, (int) A5_OFF(PF_IN0)))))
-__CPROVER_ensures(IMPLIES(RET != 0, g_err > OLD(g_err) && g_err - OLD(g_err) <= 2 && g_diag - OLD(g_diag) <= 2 && g_warn == OLD(g_warn) && a5_pf_refused(PF_IN0, c->in)))
+__CPROVER_ensures(IMPLIES(RET == 0, __CPROVER_pointer_equals(c->in, PF_IN0 + PF_K)))
+/* diagnosed exactly when refused */
+__CPROVER_ensures(IMPLIES(RET == 0, g_err == OLD(g_err) && g_diag == OLD(g_diag) && g_warn == OLD(g_warn)))
+__CPROVER_ensures(IMPLIES(RET != 0, g_err > OLD(g_err) && g_err - OLD(g_err) <= 2 && g_diag - OLD(g_diag) <= 2 && g_warn == OLD(g_warn)))
+__CPROVER_ensures(IMPLIES(!g_rec, g_pf_k == OLD(g_pf_k)))
 ;
 void h_parse_printf_format(void)
 {
@@ -261,7 +277,7 @@ void h_parse_printf_format(void)
 	__CPROVER_assume(len <= A5_MAXLEN);
 	char *in = malloc(len + 1);
 	__CPROVER_assume(in != NULL);
-	g_txt = in;
+	g_txt = in; g_rec = 0;
 	c.in = in; c.out = NULL; c.len = 0;   /* (a cursor at a symbolic offset of a symbolic-size object: no answer in 300 s) */
 	int buflen = nondet_int();
 	__CPROVER_assume(buflen >= 0 && buflen <= A5_BUF);
@@ -293,44 +309,48 @@ static int a5_name_stop(int slen, int off)
 	}
 	return A5_BUF;
 }
-/* accepted exactly for a non-empty run of letters and digits closed by '}' that fits with its terminator */
-static int a5_pn_legal(const char *in0, int buflen)
+/* k = length of the name; returns 0, or the number of the clause that does not hold */
+static int a5_pn_post(int ret, const char *in0, const char *in1, const char *arg, int buflen, int j, int k)
 {
 	int off = (int) A5_OFF(in0);
-	int k = a5_name_stop(A5_SLEN, off);
-	return k >= 1 && k < A5_BUF && a5_at(off + k) == '}' && k + 1 <= buflen;
-}
-/* accepted: the buffer holds the name; the cursor stands on the closing brace */
-static int a5_pn_accepted(const char *in0, const char *in1, const char *arg, int j)
-{
-	int off = (int) A5_OFF(in0);
-	int k = a5_name_stop(A5_SLEN, off);
-	if (!(__CPROVER_same_object(in1, in0) && A5_OFF(in1) == A5_OFF(in0) + (unsigned long) k))
-		return 0;
-	if (arg[k] != '\0')
-		return 0;
-	if (!a5_copied(arg, 0, off, k))
-		return 0;
-	if (j >= 0 && j < k && !(arg[j] == a5_at(off + j) && isalnum(arg[j])))
-		return 0;
-	return 1;
-}
-static int a5_pn_refused(const char *in0, const char *in1)
-{
-	int k = a5_name_stop(A5_SLEN, (int) A5_OFF(in0));
-	return __CPROVER_same_object(in1, in0) && A5_OFF(in1) >= A5_OFF(in0) && A5_OFF(in1) <= A5_OFF(in0) + (unsigned long) k;
+	if (k != a5_name_stop(A5_SLEN, off))
+		return 1;
+	if (!(ret == 0 || ret == -1))
+		return 2;
+	/* accepted exactly for a non-empty run of letters and digits closed by '}' that fits with its terminator */
+	int legal = k >= 1 && k < A5_BUF && a5_at(off + k) == '}' && k + 1 <= buflen;
+	if ((ret == 0) != (legal != 0))
+		return 3;
+	if (!__CPROVER_same_object(in1, in0))
+		return 4;
+	if (ret == 0) {
+		/* the buffer holds the name; the cursor stands on the closing brace */
+		if (A5_OFF(in1) != A5_OFF(in0) + (unsigned long) k)
+			return 5;
+		if (arg[k] != '\0')
+			return 6;
+		if (!a5_copied(arg, 0, off, k))
+			return 7;
+		if (j >= 0 && j < k && !(arg[j] == a5_at(off + j) && isalnum(arg[j])))
+			return 8;
+	} else {
+		if (!(A5_OFF(in1) >= A5_OFF(in0) && A5_OFF(in1) <= A5_OFF(in0) + (unsigned long) k))
+			return 9;
+	}
+	return 0;
 }
 A5_SPEC_END
+#define PN_K (g_rec ? g_pn_k : a5_name_stop(A5_SLEN, (int) A5_OFF(PF_IN0)))
 int c_parse_arg_name(char *arg, int buflen, struct cursor *c)
 __CPROVER_requires(__CPROVER_rw_ok(c, sizeof(*c)) && A5_STR_PRE(c->in) && DIAG_PRE)
 __CPROVER_requires(buflen >= 0 && buflen <= A5_BUF && (buflen == 0 || __CPROVER_w_ok(arg, (size_t) buflen)))
-__CPROVER_assigns(c->in, DIAG_FRAME)
+__CPROVER_assigns(c->in, DIAG_FRAME, g_pn_k)
 __CPROVER_assigns(buflen > 0: __CPROVER_object_upto(arg, (size_t) buflen))
-__CPROVER_ensures(RET == 0 || RET == -1)
-__CPROVER_ensures((RET == 0) == (a5_pn_legal(PF_IN0, buflen) ? 1 : 0))
-__CPROVER_ensures(IMPLIES(RET == 0, a5_pn_accepted(PF_IN0, c->in, arg, g_j) && g_err == OLD(g_err) && g_diag == OLD(g_diag) && g_warn == OLD(g_warn)))
-__CPROVER_ensures(IMPLIES(RET == 0, __CPROVER_pointer_equals(c->in, PF_IN0 + a5_name_stop(A5_SLEN, (int) A5_OFF(PF_IN0)))))
-__CPROVER_ensures(IMPLIES(RET != 0, g_err > OLD(g_err) && g_err - OLD(g_err) <= 2 && g_diag - OLD(g_diag) <= 2 && g_warn == OLD(g_warn) && a5_pn_refused(PF_IN0, c->in)))
+__CPROVER_ensures(a5_pn_post(RET, PF_IN0, c->in, arg, buflen, g_j, PN_K) == 0)
+__CPROVER_ensures(IMPLIES(RET == 0, __CPROVER_pointer_equals(c->in, PF_IN0 + PN_K)))
+__CPROVER_ensures(IMPLIES(RET == 0, g_err == OLD(g_err) && g_diag == OLD(g_diag) && g_warn == OLD(g_warn)))
+__CPROVER_ensures(IMPLIES(RET != 0, g_err > OLD(g_err) && g_err - OLD(g_err) <= 2 && g_diag - OLD(g_diag) <= 2 && g_warn == OLD(g_warn)))
+__CPROVER_ensures(IMPLIES(!g_rec, g_pn_k == OLD(g_pn_k)))
 ;
 void h_parse_arg_name(void)
 {
@@ -339,7 +359,7 @@ void h_parse_arg_name(void)
 	__CPROVER_assume(len <= A5_MAXLEN);
 	char *in = malloc(len + 1);
 	__CPROVER_assume(in != NULL);
-	g_txt = in;
+	g_txt = in; g_rec = 0;
 	c.in = in; c.out = NULL; c.len = 0;
 	int buflen = nondet_int();
 	__CPROVER_assume(buflen >= 0 && buflen <= A5_BUF);
@@ -398,6 +418,10 @@ static int a5_find(const struct ev_spec *spec, const char *name)
 			return i;
 	return -1;
 }
+/* the names of the declared arguments are terminated (parse_arg refuses names of 64 characters and more) */
+#define A5_NT(s, i) (B((i) >= (s)->nargs) | NAME_T(s, i))
+#define A5_DECLARED_NAMES_TERMINATED(s) ((A5_NT(s, 0) & A5_NT(s, 1) & A5_NT(s, 2) & A5_NT(s, 3) & A5_NT(s, 4) & A5_NT(s, 5) & A5_NT(s, 6) & \
+	A5_NT(s, 7) & A5_NT(s, 8) & A5_NT(s, 9) & A5_NT(s, 10) & A5_NT(s, 11) & A5_NT(s, 12) & A5_NT(s, 13) & A5_NT(s, 14) & A5_NT(s, 15)) != 0)
 int g_k;            /* the observer: an arbitrary argument index, never assigned */
 /* a declared argument g_k with that name is found (it, or an earlier one of the same name); if the cell g_k is what is
  * returned, it is declared and has that name; and what is returned is always one of the declared cells */
@@ -419,13 +443,16 @@ static int a5_fa_observer(const struct ev_spec *spec, const char *name, const st
 	return 1;
 }
 A5_SPEC_END
+#define FA_IDX (g_rec ? g_fa_idx : a5_find(spec, name))
 struct ev_arg *c_ev_spec_find_arg(struct ev_spec *spec, const char *name)
-__CPROVER_requires(__CPROVER_r_ok(spec, sizeof(*spec)) && spec->nargs >= 0 && spec->nargs <= MAX_ARGS && SPEC_NAMES_TERMINATED(spec))
-__CPROVER_requires(__CPROVER_r_ok(name, 1) && a5_name_ok(name))
-__CPROVER_assigns()
+__CPROVER_requires(__CPROVER_r_ok(spec, sizeof(*spec)) && spec->nargs >= 0 && spec->nargs <= MAX_ARGS && A5_DECLARED_NAMES_TERMINATED(spec))
+__CPROVER_requires(__CPROVER_r_ok(name, 1) && a5_name_ok(name) && g_fa_calls < 1000)
+__CPROVER_assigns(g_fa_idx, g_fa_calls)
 /* the first argument with that name; NULL exactly when no declared argument has it */
-__CPROVER_ensures((RET == NULL) == (a5_find(spec, name) < 0 ? 1 : 0))
-__CPROVER_ensures(RET == NULL || __CPROVER_pointer_equals(RET, &spec->args[a5_find(spec, name)]))
+__CPROVER_ensures(IMPLIES(g_rec, g_fa_idx == a5_find(spec, name) && g_fa_calls == OLD(g_fa_calls) + 1))
+__CPROVER_ensures(IMPLIES(!g_rec, g_fa_idx == OLD(g_fa_idx) && g_fa_calls == OLD(g_fa_calls)))
+__CPROVER_ensures((RET == NULL) == (FA_IDX < 0 ? 1 : 0))
+__CPROVER_ensures(RET == NULL || __CPROVER_pointer_equals(RET, &spec->args[FA_IDX]))
 /* the same through the arbitrary observer g_k (a5_fa_observer) */
 __CPROVER_ensures(a5_fa_observer(spec, name, RET, g_k))
 ;
@@ -436,6 +463,7 @@ void h_ev_spec_find_arg(void)
 	__CPROVER_assume(len <= A5_MAXLEN);
 	char *name = malloc(len + 1);
 	__CPROVER_assume(name != NULL);
+	g_rec = 0;
 	struct ev_arg *r = ev_spec_find_arg(&h_spec, name);
 	if (r == NULL && h_spec.nargs == 0) REACH("nothing declared: NULL");
 	if (r == &h_spec.args[15]) REACH("the sixteenth argument found");
@@ -527,6 +555,7 @@ void h_print_arg(void)
 	uint8_t *pay = psize > 0 ? malloc(psize) : NULL;
 	__CPROVER_assume(psize == 0 || pay != NULL);
 	h_ev.payload = (const union ovni_ev_payload *) pay; h_ev.payload_size = psize;
+	g_rec = 0;
 	int r = print_arg(&h_arg, fmt, &c, &h_ev);
 	if (r == 0 && h_arg.type == I32 && h_arg.offset == 4 && psize == 8 && g_pr.ival == -2) REACH("i32 at 4 of an 8-byte payload shown as -2");
 	if (r == 0 && h_arg.type == U64 && g_pr.uval == 0xffffffffffffffffULL) REACH("u64 maximum shown");
@@ -537,9 +566,9 @@ void h_print_arg(void)
 
 /* ====================================================================================
  * format_region:   %%   |   %{name}   |   %<format>{name}      c->in points to the '%'
- * The two parsers and advance_in are used through their contracts above; ev_spec_find_arg and print_arg are
- * the real functions (print_arg's own contracts: plan C18 print_arg, plan C19 print_arg), so that what reaches
- * snprintf -- destination, room, format, VALUE -- is observed in the recording stub.
+ * Every callee is used through its contract above (advance_in, parse_printf_format, parse_arg_name,
+ * ev_spec_find_arg, print_arg); what reaches snprintf -- destination, room, format, VALUE -- is what print_arg's
+ * contract says about the recording stub.
  * ==================================================================================== */
 #include "ovni.h"
 A5_SPEC_BEGIN
@@ -557,27 +586,29 @@ static char a5_default_fmt(int type, int j)
 	}
 	return 0;
 }
-/* the declared argument i is called like the text positions [a, a + m) */
-static int a5_named_text(const struct ev_spec *spec, int i, const char *nm, int m)
+/* pre-state: ASSIGNED by the harness function before the call (a ghost pointer that is only assumed equal to
+ * c->out does not dereference to the buffer: HOWTO pitfall 1); format_region's contract is never used as a replacement */
+int g_len0; char *g_out0; const uint8_t *g_payload; unsigned long g_psize;
+/* the declared argument i is called like the m characters of the text from position a on */
+static int a5_named_text(const struct ev_spec *spec, int i, int a, int m)
 {
 	for (int k = 0; k < A5_BUF; k++) {
 		char ch = spec->args[i].name[k];
 		if (k == m)
 			return ch == '\0';
-		if (ch != nm[k])
+		if (ch != a5_txt(a, k))
 			return 0;
 	}
 	return 0;
 }
-/* pre-state: ASSIGNED by the harness function before the call (a ghost pointer that is only assumed equal to
- * c->out does not dereference to the buffer: HOWTO pitfall 1); format_region's contract is never used as a replacement */
-int g_len0; char *g_out0; const uint8_t *g_payload; unsigned long g_psize;
-/* What the region says (cls: 0 = malformed, 1 = "%%", 2 = well-formed region), where it ends, which argument it
- * names (idx, -1 = not declared), the length f of its format (0 = none: the default of the type) */
-struct a5_region { int cls, f, m, end, idx; };
-static struct a5_region a5_region_of(const struct ev_spec *spec)
+/* What the region says (cls: 0 = malformed, 1 = "%%", 2 = well-formed region), where it ends, the length f of its
+ * format (0 = none: the default of the type), the length m of its name.  The two lengths are the ones the parsers'
+ * contracts report (g_pf_k, g_pn_k: checked against the text here), the argument is the one ev_spec_find_arg's
+ * contract reports (g_fa_idx: the first declared argument called like the buffer parse_arg_name filled). */
+struct a5_region { int cls, f, m, end; };
+static struct a5_region a5_region_of(void)
 {
-	struct a5_region r = { 0, 0, 0, 0, -1 };
+	struct a5_region r = { 0, 0, 0, 0 };
 	int slen = A5_SLEN;
 	if (slen < 2 || g_txt[0] != '%')           /* "...%" at the end of the text, or no region at all */
 		return r;
@@ -595,21 +626,28 @@ static struct a5_region a5_region_of(const struct ev_spec *spec)
 	if (!(m >= 1 && m <= A5_BUF - 1 && a5_at(f + 2 + m) == '}'))
 		return r;
 	r.cls = 2; r.f = f; r.m = m; r.end = f + m + 3;
-	char nm[A5_BUF];
-	for (int p = 0; p < A5_WIN; p++)
-		if (p >= f + 2 && p < f + 2 + m)
-			nm[p - (f + 2)] = g_txt[p];
-	for (int i = 0; i < MAX_ARGS; i++)
-		if (r.idx < 0 && i < spec->nargs && a5_named_text(spec, i, nm, m))
-			r.idx = i;
 	return r;
 }
 /* the whole postcondition; returns 0, or the number of the clause that does not hold */
 static int a5_fr_post(int ret, const struct ev_spec *spec, const struct cursor *c, unsigned err0, unsigned err1)
 {
-	struct a5_region r = a5_region_of(spec);
+	struct a5_region r = a5_region_of();
 	if (!(ret == 0 || ret == -1))
 		return 1;
+	/* the argument is looked up exactly for a well-formed region (with room left) */
+	if (g_fa_calls != ((g_len0 > 0 && r.cls == 2) ? 1u : 0u))
+		return 15;
+	int idx = g_fa_calls == 1 ? g_fa_idx : -1;
+	if (idx >= 0) {
+		/* what was found is a declared argument called like the text between the braces (observed cell g_j) */
+		if (!(idx < spec->nargs && spec->args[idx].name[r.m] == '\0'))
+			return 16;
+		if (g_j >= 0 && g_j < r.m && spec->args[idx].name[g_j] != a5_txt(r.f + 2, g_j))
+			return 17;
+	}
+	/* a declared argument (observed one: g_k) called like that text is found: it, or an earlier one of that name */
+	if (g_fa_calls == 1 && g_k >= 0 && g_k < spec->nargs && a5_named_text(spec, g_k, r.f + 2, r.m) && !(idx >= 0 && idx <= g_k))
+		return 18;
 	/* the cursor never leaves the text nor passes its terminator */
 	if (!(__CPROVER_same_object(c->in, g_txt) && A5_OFF(c->in) <= (unsigned long) A5_SLEN))
 		return 2;
@@ -623,7 +661,7 @@ static int a5_fr_post(int ret, const struct ev_spec *spec, const struct cursor *
 	}
 	/* accepted exactly when there is room, the region is well-formed, names a declared argument and the printed
 	 * value fits (result of snprintf below the room) */
-	int printed = (r.cls == 2 && r.idx >= 0);
+	int printed = (r.cls == 2 && idx >= 0);
 	int legal = g_len0 > 0 && (r.cls == 1 || (printed && g_pr.calls == 1 && g_pr.ret < g_len0));
 	if ((ret == 0) != (legal != 0))
 		return 5;
@@ -636,7 +674,7 @@ static int a5_fr_post(int ret, const struct ev_spec *spec, const struct cursor *
 			return 7;
 	}
 	if (g_pr.calls == 1) {
-		const struct ev_arg *a = &spec->args[r.idx];
+		const struct ev_arg *a = &spec->args[idx];
 		/* printed at the output cursor with the room that was left */
 		if (!(g_pr.s == g_out0 && g_pr.n == (size_t) g_len0))
 			return 8;
@@ -666,54 +704,42 @@ __CPROVER_requires(g_psize == ev->payload_size && g_payload == (const uint8_t *)
 __CPROVER_requires(__CPROVER_rw_ok(c, sizeof(*c)) && A5_STR_PRE(c->in) && A5_OFF(c->in) == 0 && DIAG_PRE)
 /* the output cursor: c->len bytes of room and one more for the terminator (ev_spec_print's invariant) */
 __CPROVER_requires(c->len >= 0 && __CPROVER_w_ok(c->out, (size_t) c->len + 1) && g_len0 == c->len && g_out0 == c->out)
-__CPROVER_requires(g_pr.calls == 0)
-__CPROVER_assigns(c->in, c->out, c->len, DIAG_FRAME, g_pr)
+__CPROVER_requires(g_pr.calls == 0 && g_fa_calls == 0 && g_rec == 1)
+__CPROVER_assigns(c->in, c->out, c->len, DIAG_FRAME, g_pr, g_pf_k, g_pn_k, g_fa_idx, g_fa_calls)
 __CPROVER_assigns(c->len > 0: __CPROVER_object_upto(c->out, (size_t) c->len))
+#ifndef A5_V1
 __CPROVER_ensures(a5_fr_post(RET, spec, c, OLD(g_err), g_err) == 0)
+#endif
 ;
 void h_format_region(void)
 {
 	struct cursor c;
 	unsigned long len = nondet_size_t();
 	__CPROVER_assume(len <= A5_MAXLEN);
-#ifdef A5_X2
-	char inbuf[140]; char *in = inbuf;
-	__CPROVER_assume(len == 139);
-#else
 	char *in = malloc(len + 1);
 	__CPROVER_assume(in != NULL);
-#endif
 	g_txt = in;
 	c.in = in;
 	/* the output buffer: any size, the cursor anywhere in it */
 	unsigned long outlen = nondet_size_t(), pos = nondet_size_t();
 	__CPROVER_assume(outlen >= 1 && outlen <= 0x7fffffffUL && pos < outlen);
-#ifdef A5_E2
-	char outbuf[64]; char *out = outbuf;
-	__CPROVER_assume(outlen <= 64);
-#else
 	char *out = malloc(outlen);
 	__CPROVER_assume(out != NULL);
-#endif
 	c.out = out + pos; c.len = (int) (outlen - 1 - pos);
 	/* the payload: any size */
 	unsigned long psize = nondet_size_t();
 	__CPROVER_assume(psize <= 0x7fffffffUL);
-#ifdef A5_E1
-	uint8_t paybuf[160]; uint8_t *pay = paybuf;
-	__CPROVER_assume(psize <= 160);
-#else
 	uint8_t *pay = psize > 0 ? malloc(psize) : NULL;
 	__CPROVER_assume(psize == 0 || pay != NULL);
-#endif
 	h_ev.payload = (const union ovni_ev_payload *) pay; h_ev.payload_size = psize;
-#ifdef A5_X1
-	__CPROVER_assume(h_spec.nargs == 0);
-#endif
-#ifdef A5_X3
-	__CPROVER_assume(in[1] == '{' || in[1] == '%');
+	/* the group's class of texts (the classes of the groups a5_format_region_* cover every text) */
+#if A5_CLASS == 1
+	__CPROVER_assume(!(len >= 2 && in[0] == '%' && in[1] != '{' && in[1] != '%'));      /* everything but %<format>{name} */
+#elif A5_CLASS == 2
+	__CPROVER_assume(len >= 2 && in[0] == '%' && in[1] != '{' && in[1] != '%');         /* %<format>{name} */
 #endif
 	g_len0 = c.len; g_out0 = c.out; g_payload = pay; g_psize = psize;
+	g_rec = 1; g_pr.calls = 0; g_fa_calls = 0;
 	int r = format_region(&h_spec, &c, &h_ev);
 	if (r == 0 && in[1] == '%') REACH("%% accepted");
 	if (r == 0 && len > 1000 && in[1] == '{' && in[5] == '}') REACH("%{abc} accepted at the head of a long text");
@@ -722,3 +748,21 @@ void h_format_region(void)
 	if (r != 0 && len > 4 && g_pr.calls == 0 && in[0] == '%' && in[1] == '{' && in[2] == 'x' && in[3] == '}' && c.len > 0) REACH("%{x} with no argument x declared: refused");
 	if (r != 0 && len == 2 && in[0] == '%' && in[1] == 'd') REACH("unterminated region refused");
 }
+#ifdef A5_V1
+int ct_print_arg(struct ev_arg *arg, const char *fmt, struct cursor *c, struct emu_ev *ev)
+__CPROVER_requires(__CPROVER_rw_ok(c, sizeof(*c)))
+__CPROVER_assigns(c->out, c->len, DIAG_FRAME, g_pr)
+__CPROVER_ensures(1)
+;
+int ct_parse(char *arg, int buflen, struct cursor *c)
+__CPROVER_requires(__CPROVER_rw_ok(c, sizeof(*c)))
+__CPROVER_assigns(c->in, DIAG_FRAME)
+__CPROVER_assigns(buflen > 0: __CPROVER_object_upto(arg, (size_t) buflen))
+__CPROVER_ensures(__CPROVER_pointer_equals(c->in, OLD(c->in) + 1))
+;
+struct ev_arg *ct_find(struct ev_spec *spec, const char *name)
+__CPROVER_requires(1)
+__CPROVER_assigns()
+__CPROVER_ensures(RET == NULL || __CPROVER_pointer_equals(RET, &spec->args[0]))
+;
+#endif
